@@ -25,7 +25,8 @@ Definition message_eqb (a b : message) : bool :=
               has should_respond = False (nothing is put on the wire) *)
 Record pdu_case := {
   pc_q : request; pc_cls : string; pc_obs : reqattrs;
-  pc_pred : option Z; pc_msg_after : message; pc_actual : option Z }.
+  pc_pred : option Z; pc_msg_after : message; pc_actual : option Z;
+  pc_normal : bool     (* the server answered with a normal response (not an exception response) *) }.
 
 Definition chk_pdu (c : pdu_case) : bool * bool :=
   let model :=
@@ -38,6 +39,7 @@ Definition chk_pdu (c : pdu_case) : bool * bool :=
     | None => true                                   (* the class does not predict: unconstrained *)
     | Some p =>
         negb (request_ok (pc_q c))                   (* quantity outside the spec limits: unconstrained *)
+        || negb (pc_normal c)                        (* exception reply: its length is the recv suite's business *)
         || (optz_eqb (spec_response_pdu_len (pc_q c)) (Some p) && optz_eqb (pc_actual c) (Some p))
     end in
   (model, prop).
